@@ -157,6 +157,8 @@ def concrete_args(o):
         a.append('--buffer')
     if o.get('color'):
         a.append('-c')
+    if o.get('progress'):
+        a.append('-p')
     if o.get('pm'):
         a.append('-D')
     if o.get('shuffle'):
